@@ -18,7 +18,7 @@ def _alarm(signum, frame):
     raise CallTimeout()
 
 
-SESSION = dict(reuse=False, abort=False)
+SESSION = dict(reuse=False, abort=False, strict_fp=False)
 
 
 def _init():
@@ -48,12 +48,12 @@ def _run(args):
     return rec
 
 
-def run_jobs(modname, jobs, limit=20.0, procs=None, reuse=False, abort=False):
+def run_jobs(modname, jobs, limit=20.0, procs=None, reuse=False, abort=False, strict_fp=False):
     """exec_job(job) -> record for every job, in order.  A call that exceeds
     `limit` seconds yields {'timeout': 1} (inconclusive, never a violation).
     reuse / abort: the opt-in call-sequence probes of harness/session.py."""
     procs = procs or core.NCPU
-    SESSION.update(reuse=reuse, abort=abort)
+    SESSION.update(reuse=reuse, abort=abort, strict_fp=strict_fp)
     os.environ["BCTPY_VERIF"] = "1"
     os.environ.setdefault("PYTHONHASHSEED", "0")
     if len(jobs) <= 2 or procs == 1:
